@@ -220,8 +220,17 @@ Definition step (st0 : state) (e : event) : option state :=
         | Some _ => None
         | None =>
           if Nat.eqb (length rs) (length (t_inflight x)) && forallb (fun r => nmem r (t_inflight x)) (map fst rs)
-          then Some (set_drains st t x (nset (t_drains x) (goid (e_by e))
-                       (mkD (d_orig d) (d_deadline d) (Some (map fst rs)) false false)))
+             (* the "hijacked" flag is exactly: the target answered 101 and the connection was taken over *)
+             && forallb (fun rh => Bool.eqb (snd rh) (match phase_of st (fst rh) with
+                                                      | Some (PReplied _ s101) => s101 =? 101 | _ => false end)) rs
+          then
+            (* upgraded connections are cancelled at once, "as they may be long-running" *)
+            let rq := fold_left (fun acc (rh : nat * bool) => if snd rh then
+                                   match nget acc (fst rh) with
+                                   | Some q => nset acc (fst rh) (mkR (r_phase q) true)
+                                   | None => acc end else acc) rs (reqs st) in
+            Some (upd_reqs (set_drains st t x (nset (t_drains x) (goid (e_by e))
+                       (mkD (d_orig d) (d_deadline d) (Some (map fst rs)) false false))) rq)
           else None
         end
       | None => None
@@ -400,6 +409,12 @@ Definition step (st0 : state) (e : event) : option state :=
       | _ => None
       end
     | None => None
+    end
+  | KHijacked r =>
+    (* targetResponseWriter.Hijack: only after the target answered 101 Switching Protocols *)
+    match phase_of st r with
+    | Some (PReplied _ s101) => if s101 =? 101 then Some st else None
+    | _ => None
     end
   | KEnd t r =>
     match phase_of st r, nget (targets st) t with
